@@ -90,6 +90,19 @@ pub fn boundary_event<V: Fv>(rng: &mut impl RngCore, norm: i64, k: usize, sign: 
     verify_event::<V>(&msg, &sig_bytes::<V>(&salt, &body), &pkb, tag)
 }
 
+/// Boundary triple (s2 = x^k) for a GIVEN salt and message (the corpus of extreme hash streams).
+pub fn boundary_event_at<V: Fv>(salt: &[u8; 40], msg: &[u8], norm: i64, k: usize, twist: u64, tag: &str) -> Value {
+    let n = V::N;
+    let c = verif::hash_to_point(&[salt.to_vec(), msg.to_vec()].concat(), n);
+    let e = vec_with_norm(n, norm - 1, twist);
+    let h = pk_for_s1(&c, &e, k, 1);
+    let pkb = pk_bytes(&h, V::LOGN);
+    let mut s2 = vec![0i16; n];
+    s2[k] = 1;
+    let body = pack_coeffs(&s2, V::SIG_LEN - 41);
+    verify_event::<V>(msg, &sig_bytes::<V>(salt, &body), &pkb, tag)
+}
+
 /// Boundary triple for an ARBITRARY s2 (invertible mod q): s1 = e with ||e||^2 + ||s2||^2 = norm, the public key solved for.
 /// `raw` optionally gives the bit-level encoding of s2 (for bodies that fill the buffer to a chosen slack).
 pub fn general_boundary_event<V: Fv>(rng: &mut impl RngCore, s2: &[i16], norm: i64, twist: u64, tag: &str) -> Option<Value> {
@@ -333,6 +346,15 @@ pub fn c02_corpus<V: Fv>(seed: u64, thorough: bool, out: &mut Shards) {
                 tw += 1;
                 out.emit(boundary_event::<V>(&mut rng, w, 1, 1, tw, "norm-at-32-bit-edge"));
             }
+        }
+    }
+    // the corpus of extreme hash streams: c must be the specification's point also when the stream is consumed far beyond its usual
+    // length or contains long runs of rejected chunks (accept at the bound / reject one above)
+    for (j, (i, tag)) in crate::corpus::H2P_EXTREME.iter().enumerate().take(if thorough { 12 } else { 6 }) {
+        let salt = crate::corpus::h2p_salt(*i);
+        out.emit(boundary_event_at::<V>(&salt, crate::corpus::H2P_MSG, V::BOUND, j % 3, 7 + j as u64, tag));
+        if thorough || j < 2 {
+            out.emit(boundary_event_at::<V>(&salt, crate::corpus::H2P_MSG, V::BOUND + 1, 1, 9 + j as u64, tag));
         }
     }
     out.emit(boundary_event::<V>(&mut rng, 1, 0, 1, 3, "norm-one"));
